@@ -6,6 +6,6 @@ export CARGO_NET_OFFLINE=true
 export RUSTFLAGS="${RUSTFLAGS:-} -Awarnings"
 cd "$HERE/harness"
 cargo build --release --quiet                       # pbt, c18_conc, c20_child (checked profile)
-cargo build --quiet --bin c20_child                 # dev profile child for C20 quick
+cargo build --quiet --bin c20_child --bin longdrop  # dev profile children for C20 / C18
 cargo build --quiet --manifest-path c18_probe/Cargo.toml --target-dir "$HERE/harness/target/probe"
 echo "setup ok"
